@@ -27,6 +27,7 @@ RULES = {
     "R04.3": "PeerIdentity constructed only with 1..=255 bytes or by new(); empty -> new()",
     "R04.4": "each backend registers at most once per path, overwrite semantics, key = handshake identity",
     "R04.5": "AcceptFailed reported through try_send; connect propagates the handshake error",
+    "R04.F": "foundation clauses re-evaluated as necessary conditions: " + ", ".join(['accept']),
 }
 
 
@@ -303,6 +304,23 @@ def check_ready(f, rep):
             defaulted = val[0] in ("call", "pure") and short(val[1]) in ("default", "new") and "PeerIdentity" in val[1] and absent
             chain = tr_ok and pathq.mentions_call(val, lambda x: short(x[1]) == "transpose" and
                                                   any(isinstance(y, tuple) and y and id_prop(y) for y in walk_expr(x))) is not None
+            # nothing else sits between the property lookup and the conversion (a `.filter(..)` would turn some announced
+            # identities into "absent" and hand those peers a generated one)
+            def straight(x, depth=0):
+                while isinstance(x, tuple) and x and x[0] in ("field", "downcast", "ref", "deref"):
+                    x = x[1]
+                if not (isinstance(x, tuple) and x and x[0] in ("call", "pure")) or depth > 12:
+                    return False
+                n_ = short(x[1])
+                if n_ == "get":
+                    return id_prop(x)
+                if n_ in ("cloned", "clone", "copied", "map", "transpose", "branch", "unwrap_or_default", "unwrap_or_else", "unwrap_or", "try_into", "try_from",
+                          "as_ref", "into", "from", "to_owned", "as_deref") and x[2]:
+                    return straight(x[2][0], depth + 1)
+                return False
+            if not defaulted:
+                rep.check(straight(val), "R04.1", "R04.1|ready|identity-straight-from-property",
+                          "the admitted identity comes straight from get(\"Identity\") through the conversion - no filter or other adaptor in between: %s" % show(val)[:90], b.loc())
             rep.check((ident and tr_ok) or chain or converted or defaulted, "R04.1", "R04.1|ready|identity-checked",
                       "the admitted identity is the checked conversion of the Identity property or a default "
                       "(transpose()? decided Ok: %s; conversion decided Ok: %s; default when absent: %s)" % (ident and tr_ok, converted, defaulted), b.loc())
@@ -439,6 +457,34 @@ def check_report(f, rep):
                     if a[3] == "Accepted":
                         okarm = pathq.ok_decided(p, lambda x: True, ev.ncond)
                         rep.check(okarm, "R04.5", "R04.5|accepted-on-ok", "Accepted is emitted only on the Ok arm", b.loc(ev.bb))
+        # every failure is reported, whatever its kind: on each returning path that decided the handshake (or the accept) result
+        # Err, AcceptFailed is sent unless no monitor is installed - an arm that swallows one error variant hides rejections
+        nerrp = 0
+        for p in pathq.paths(f, b):
+            if p.end != "return":
+                continue
+            err = False
+            for (e, c, _, _) in p.conds:
+                if e[0] != "discr" or c != ("eq", 1):
+                    continue
+                x = e[1]
+                while x[0] == "ref":
+                    x = x[1]
+                is_param = x[0] == "field" and x[1] == ("arg", 1) and "FramedIo" in str(x[3])
+                from_driver = not pathq.is_poll(type("E", (), {"kind": "call", "name": x[1] if x[0] in ("call", "pure") else ""})()) and \
+                    pathq.mentions_call(x, lambda y: hs.is_poll_of_role(f, y, "driver")) is not None and \
+                    not (x[0] in ("call", "pure") and hs.is_poll_of_role(f, x, "driver"))
+                if is_param or from_driver:
+                    err = True
+            if not err:
+                continue
+            nerrp += 1
+            sent = any(len(ev.args) > 1 and ev.args[1][0] == "agg" and ev.args[1][3] == "AcceptFailed" for i, ev in pathq.calls(p, "try_send"))
+            no_monitor = any(e[0] == "discr" and c == ("eq", 0) and pathq.mentions_call(e[1], lambda y: short(y[1]) == "lock" and "Mutex" in y[1]) is not None
+                             for (e, c, _, _) in p.conds)
+            rep.check(sent or no_monitor, "R04.5", "R04.5|every-failure-reported",
+                      "on every path that decided the connection's handshake / accept result Err, AcceptFailed is sent (or no monitor is installed): sent=%s, no monitor=%s" % (sent, no_monitor), b.loc())
+        rep.floor("R04.5", "failing paths of the accept callback", nerrp, 2)
         rep.check(seen["AcceptFailed"] > 0, "R04.5", "R04.5|accept-failed-reported", "a failed handshake reaches try_send(SocketEvent::AcceptFailed(..)) (%d path events)" % seen["AcceptFailed"], b.loc())
         rep.check(not blocking, "R04.5", "R04.5|non-blocking-monitor", "monitor events use the non-blocking try_send (%s)" % blocking, b.loc())
     cn = [b for b in f.bodies if b.path.endswith("Socket::connect::{closure#0}")]
@@ -460,7 +506,12 @@ def check_report(f, rep):
         rep.check(prop and not swallowed, "R04.5", "R04.5|connect-propagates", "connect() returns Err when the handshake fails (propagated %s, swallowed %s)" % (prop, swallowed), b.loc())
 
 
+DEPENDS = ['accept']     # foundation groups re-evaluated as necessary conditions (rules/found.py)
+
+
 def run(ctx, f, rep):
+    from . import found
+    found.import_groups(ctx, f, rep, 'C04', DEPENDS)
     check_compat(f, rep)
     # the relation a peer meets is compatible() composed with the parser of its announced name
     tables.check_name_table(f, rep, "R04.2", "SocketType", SOCKET_TYPES, want_reader=True)
